@@ -78,6 +78,11 @@ X86_RO_SAME = _fam({"and", "or", "andps", "andpd", "orps", "orpd", "pand", "por"
 X86_RO_IMM0 = {"add", "sub", "or", "xor", "shl", "shr", "sar", "rol", "ror", "and"}
 
 
+# operand accesses taken from the Intel SDM instead of asmjit's query_rw_info (where the two are known to differ):
+#   CMPXCHG r/m, r, <acc>: "if equal ... else the destination operand is loaded into the accumulator"
+X86_RW_FROM_SDM = {("cmpxchg", 2): (True, True)}
+
+
 NOT_JUMPS = {"adr", "adrp", "ldr", "ldrsw", "prfm", "lea", "mov"}
 
 
@@ -135,6 +140,8 @@ def translate(rec, want_debug=False):
             if op["k"] == "r" and F.tracked(op):
                 info = rw[k]
                 r, w = info["r"], info["w"]
+                if F.x86 and (n.get("i"), k) in X86_RW_FROM_SDM:
+                    r, w = X86_RW_FROM_SDM[(n.get("i"), k)]
                 if w and not r:
                     covered = info["wb"] + info["eb"]
                     if info["wlo"] != 0 or covered < min(vsz[op["id"]], 64):
